@@ -148,7 +148,14 @@ pub fn guarded<T>(f: impl FnOnce() -> Result<T, rcgen::Error>) -> Outcome<T> {
 	let _scope = GuardScope::enter();
 	match catch_unwind(AssertUnwindSafe(f)) {
 		Ok(Ok(v)) => Outcome::Ok(v),
-		Ok(Err(e)) => Outcome::Err(err_variant(&e)),
+		Ok(Err(e)) => {
+			// the text of every error that occurs is rendered too (it may not panic, and is never empty)
+			match catch_unwind(AssertUnwindSafe(|| format!("{}", e))) {
+				Ok(t) if !t.is_empty() => Outcome::Err(err_variant(&e)),
+				Ok(_) => Outcome::Panic(format!("Display of error {:?} is empty", err_variant(&e))),
+				Err(_) => Outcome::Panic(format!("Display of error {} panicked", err_variant(&e))),
+			}
+		},
 		Err(p) => {
 			let msg = if let Some(s) = p.downcast_ref::<&str>() {
 				s.to_string()
